@@ -45,6 +45,8 @@ type c05Set struct {
 	rlk    *rlwe.RelinearizationKey
 	logQ   []float64
 	lt     float64
+
+	evalCount int
 }
 
 // c05Prime returns the (skip+1)-th largest prime below 2^bits that is 1 mod m.
@@ -149,11 +151,33 @@ func (s *c05Set) cfg(si, rlk bool) string {
 	return "t=" + U(s.t) + " qs=" + Vec(s.qs) + " n=" + I(s.n) + " si=" + b(si) + " rlk=" + b(rlk)
 }
 
+// evaluator returns an evaluator in the requested mode, obtained in rotation DIRECTLY or as a DERIVED evaluator
+// (WithKey, ShallowCopy, ShallowCopy().WithKey, WithKey().ShallowCopy): every program family of C05 therefore also runs
+// through derived evaluators, and the tie lines check their recorded scale / level against the mode of the original.
 func (s *c05Set) evaluator(si, rlk bool) *bgv.Evaluator {
+	s.evalCount++
+	return s.derivedEvaluator(si, rlk, s.evalCount%5)
+}
+
+var c05Derivations = []string{"direct", "WithKey", "ShallowCopy", "ShallowCopy.WithKey", "WithKey.ShallowCopy"}
+
+func (s *c05Set) derivedEvaluator(si, rlk bool, mode int) *bgv.Evaluator {
+	var evk rlwe.EvaluationKeySet = rlwe.NewMemEvaluationKeySet(nil)
 	if rlk {
-		return bgv.NewEvaluator(s.params, rlwe.NewMemEvaluationKeySet(s.rlk), si)
+		evk = rlwe.NewMemEvaluationKeySet(s.rlk)
 	}
-	return bgv.NewEvaluator(s.params, rlwe.NewMemEvaluationKeySet(nil), si)
+	other := rlwe.NewMemEvaluationKeySet(nil)
+	switch mode {
+	case 1:
+		return bgv.NewEvaluator(s.params, other, si).WithKey(evk)
+	case 2:
+		return bgv.NewEvaluator(s.params, evk, si).ShallowCopy()
+	case 3:
+		return bgv.NewEvaluator(s.params, other, si).ShallowCopy().WithKey(evk)
+	case 4:
+		return bgv.NewEvaluator(s.params, other, si).WithKey(evk).ShallowCopy()
+	}
+	return bgv.NewEvaluator(s.params, evk, si)
 }
 
 // ---------------------------------------------------------------- helpers: Z_t arithmetic (the Go-side interpreter)
@@ -974,6 +998,7 @@ func genC05(c *Ctx) {
 			c.c05DegreeContract(s)
 		}
 		c.c05MissingKey(s)
+		c.c05Derived(s)
 		for k := 0; k < c.Scale(6, 60); k++ {
 			c.c05CoeffProgram(s, c.Scale(8, 12))
 		}
